@@ -402,6 +402,19 @@ def check_hex_and_numbers(ctx, F, rule="R-TABLE"):
     ctx.ob(rule, "numbers|reference-spelling", okf, "Reference is `{} {} R` of (u32, u16)", wo.where(), what="references are not written as `<num> <gen> R`")
     ito = lib.calls_named(wo, r"itoa::Buffer::format$")
     ctx.ob(rule, "numbers|integer-decimal", len(ito) == 1, "Integer is written through itoa (decimal)", wo.where(), what="integers are no longer written in decimal through itoa")
+    # the reader converts the WHOLE matched span (sign and digits together): converting the digits and applying the sign
+    # afterwards cannot represent i64::MIN, which the writer does produce
+    for fn, ty in (("parser::integer", "i64"), ("parser::real", "f32")):
+        pb = F.fn(fn)
+        fs = [c for c in pb.calls if re.search(r"<%s as (std|core)::str::FromStr>::from_str$" % ty, c.full or "")]
+        span = False
+        if len(fs) == 1:
+            with pb.alpha(args=True):
+                r = pb.sname(fs[0].args[0], 14).replace("&", "").replace("*", "")
+            span = re.search(r"index\((?:<[^()]*>::deref\()?arg1\)?,RangeTo::RangeTo\{Sub\(len\(", r) is not None or "recognize(" in r
+        ctx.ob(rule, "numbers|%s-whole-span" % fn.rsplit("::", 1)[-1], span, "%s::from_str is applied to the whole consumed prefix of the input" % ty, pb.where(),
+               what="%s no longer converts the whole matched text (sign included) with %s::from_str: a value the writer can produce (e.g. i64::MIN, "
+                    "whose magnitude alone does not fit) is rejected, and everything after it in a content stream is silently dropped" % (fn, ty))
     lits = [lib._const_bytes_through(wo, c.args[1]) for c in lib.calls_named(wo, r"io::Write::write_all$")]
     ctx.ob(rule, "keywords", b"null" in lits and b"true" in lits and b"false" in lits, "null/true/false keywords", wo.where(), what="write_object lost a keyword spelling")
 
